@@ -159,6 +159,7 @@ type testIface struct {
 	spec    IfaceSpec
 	scripts map[int]Script
 	svc     *varlink.Service
+	address string
 }
 
 func (d *testIface) VarlinkGetName() string        { return d.spec.Name }
@@ -239,6 +240,12 @@ func (d *testIface) VarlinkDispatch(ctx context.Context, c varlink.Call, methodn
 		case "shutdown":
 			// a method that asks the service to stop ("Quit"): the connection it came
 			// in on is served to its end like any other
+			if a.N > 0 {
+				// (not before that many connections have been accepted: the scenario's
+				// other clients are in)
+				network, addr := splitAddr(d.address)
+				awaitTriggers(sf("accepted:%d", a.N), network, addr)
+			}
 			sim.Rec("shutdown.call", "handler")
 			err := d.svc.Shutdown()
 			sim.Rec("shutdown.return", describeErr(err))
@@ -286,7 +293,7 @@ func buildService(spec ServiceSpec, scripts map[int]Script) (*varlink.Service, [
 	}
 	var errs []error
 	for _, is := range spec.Ifaces {
-		errs = append(errs, svc.RegisterInterface(&testIface{spec: is, scripts: scripts, svc: svc}))
+		errs = append(errs, svc.RegisterInterface(&testIface{spec: is, scripts: scripts, svc: svc, address: spec.Address}))
 	}
 	return svc, errs
 }
